@@ -213,6 +213,39 @@ def run(ck: Check):
             if r != flags:
                 k = next(i for i, (a, b_) in enumerate(zip(r, flags)) if a != b_)
                 ck.mismatch(f"model {det.coq_D} vs {det.name} on exhaustive 0/1 streams", dict(detector=det.name, config=cfg, stream=[(k >> (L - 1 - j)) & 1 for j in range(L)], impl_flags=flags[k], model_flags=r[k]))
+    # the error-stream detectors driven into a genuine drift that was preceded by warnings, reset() right at the drift,
+    # then a burst of errors: through the whole restarted warm-up both flags stay False and num_instances counts the updates
+    # since the reset (own generator: independent of the draws above)
+    import random as _random
+    from frouros.detectors import concept_drift as _cd
+
+    prng = _random.Random(10101)
+    for cname, cfgname in (("RDDM", "RDDMConfig"), ("DDM", "DDMConfig"), ("ECDDWT", "ECDDWTConfig"), ("HDDMA", "HDDMAConfig"), ("HDDMW", "HDDMWConfig")):
+        for rep in range(1 if not thorough else 4):
+            d = getattr(_cd, cname)(config=getattr(_cd, cfgname)())
+            mn = int(d.config.min_num_instances)
+            saw_warning, t, hist = False, 0, []
+            while t < 4000 and not d.drift:
+                rate = 0.05 if t < 300 else min(0.9, 0.05 + (t - 300) * 0.004)
+                v = int(prng.random() < rate)
+                d.update(value=v)
+                hist.append(v)
+                saw_warning = saw_warning or bool(getattr(d, "warning", False))
+                t += 1
+            if not d.drift:
+                ck.count("drift_then_reset_no_drift_reached")
+                continue
+            d.reset()
+            bad = None
+            for j in range(1, mn):
+                d.update(value=1)
+                if d.drift or getattr(d, "warning", False) or int(d.num_instances) != j:
+                    bad = dict(step_after_reset=j, drift=bool(d.drift), warning=bool(getattr(d, "warning", False)), num_instances=int(d.num_instances))
+                    break
+            ck.case(dict(detector=cname, kind="drift-then-reset-then-errors", updates_before_reset=t, saw_warning=saw_warning), nontrivial=saw_warning, key=repr(("dtr", cname, rep, t)))
+            ck.count("drift_then_reset_cases")
+            if bad:
+                ck.violation(dict(clause="warmup-after-reset", detector=cname, scenario="drift-then-reset"), dict(what="after a drift (preceded by warnings) and reset(), a flag is raised or the counter is off inside the restarted warm-up", detector=cname, min_num_instances=mn, history_len=t, history_tail=hist[-20:], then="reset(); update(1) repeatedly", **bad))
     # correspondence on the random / constant cases
     models = run_models("C01", cases)
     from detectors import corr_compare
